@@ -407,6 +407,26 @@ func (it *Interp) builtinOp(g *G, fr *Frame, name string, args []Value, c *ssa.C
 			return nil, "nil pointer dereference (method value wrapper)", nil
 		}
 		res = args[0]
+	case "SliceData":
+		// unsafe.SliceData: pointer to element 0 of the slice's backing array
+		x, _ := args[0].(*Slice)
+		if isNilValue(x) {
+			res = (*Ptr)(nil)
+		} else {
+			res = &Ptr{obj: x.obj, off: x.off}
+		}
+	case "String":
+		// unsafe.String(ptr, len): a string that aliases live memory (see Str.view)
+		p, _ := args[0].(*Ptr)
+		n := int(it.concretize(args[1].(*Term), "unsafe.String length"))
+		if isNilValue(p) || n == 0 {
+			res = &Str{}
+		} else {
+			if p.off+n > p.obj.size {
+				return nil, "unsafe.String beyond the object it points into", nil
+			}
+			res = it.viewString(&Slice{obj: p.obj, off: p.off, len: n, cap: n, esz: 1})
+		}
 	default:
 		it.unsupported("builtin %s", name)
 	}
